@@ -232,8 +232,10 @@ class VectorT {
             typename std::enable_if<std::is_convertible<
                 decltype(this->values_[0] * _s), Scalar>::value,
                 VectorT<Scalar, DIM>&>::type {
+            // _s may refer to a component of this vector (v *= v[0])
+            const OtherScalar s = _s;
             for (auto& e : *this) {
-                e *= _s;
+                e *= s;
             }
             return *this;
         }
@@ -244,8 +246,10 @@ class VectorT {
             typename std::enable_if<std::is_convertible<
                 decltype(this->values_[0] / _s), Scalar>::value,
                 VectorT<Scalar, DIM>&>::type {
+            // _s may refer to a component of this vector (v /= v[0])
+            const OtherScalar s = _s;
             for (auto& e : *this) {
-                e /= _s;
+                e /= s;
             }
             return *this;
         }
